@@ -108,3 +108,71 @@ def t_datetime_points(o1: int, h1: int, m1: int, gapmin: int, h2: int, m2: int):
     DTPP.config._date_time_parser = par
     r = DTPP.merge_two_time_points('from D1 to D2', datetime(2000, 6, 15, 9, 30, 0))
     assert r.success is False
+
+
+# ---- "next / past N hours": BaseDateTimePeriodParser.parse_duration ------------------------------------------------------------------------------
+WORD = sl('word', 'next')          # next | past | last | previous (the real English prefix patterns decide which side moves)
+UNITS = sl('unit', 'H')            # H | M | S
+NMAX = sl('nmax', 12)
+
+
+class _DurPar:
+    secs, tx = 0, ''
+
+    def parse(self, er, reference=None):
+        val = DateTimeResolutionResult()
+        val.future_value = val.past_value = self.secs
+        val.timex = self.tx
+        val.success = True
+        pr = DateTimeParseResult(er)
+        pr.value = val
+        pr.timex_str = self.tx
+        return pr
+
+
+class _NoNumbers:
+    def extract(self, source, reference=None):
+        return []
+
+
+def h_relative_duration(o: int, hh: int, mi: int, ss: int, n: int):
+    """'<word> N <unit>' around a symbolic reference instant (any second of 1950..2090), N symbolic: the range is [reference, reference + N units]
+    (next) or [reference - N units, reference] (past / last / previous); the TIMEX endpoints are exactly the resolved start and end"""
+    assert 711858 <= o <= 763363 and 0 <= hh <= 23 and 0 <= mi <= 59 and 0 <= ss <= 59 and 1 <= n <= NMAX
+    digits.reset()
+    digits.SEMANTIC_MERGE[0] = False          # parse_duration never compares rendered numbers
+    unit_s = {'H': 3600, 'M': 60, 'S': 1}[UNITS]
+    day = datetime.fromordinal(o)
+    ref = datetime(day.year, day.month, day.day, hh, mi, ss)
+    text = WORD + ' DUR'
+    DTPP.config._duration_extractor = _Ext([(len(WORD) + 1, 3, 'DUR')], Constants.SYS_DATETIME_DURATION)
+    dp = _DurPar()
+    dp.secs, dp.tx = n * unit_s, 'PT' + digits.ph(n, 2) + UNITS
+    DTPP.config._duration_parser = dp
+    DTPP.config._cardinal_extractor = _NoNumbers()
+    r = DTPP.parse_duration(text, ref)
+    assert r.success is True
+    b, e = r.future_value
+    assert r.past_value[0] == b and r.past_value[1] == e
+    delta = timedelta(seconds=n * unit_s)
+    if WORD == 'next':
+        assert b == ref and e == ref + delta, ('range of "next"', r.timex)
+    else:
+        assert e == ref and b == ref - delta, ('range of "past"', r.timex)
+    want = ['(', (b.year, 4), '-', (b.month, 2), '-', (b.day, 2), 'T', (b.hour, 2), ':', (b.minute, 2), ':', (b.second, 2), ',',
+            (e.year, 4), '-', (e.month, 2), '-', (e.day, 2), 'T', (e.hour, 2), ':', (e.minute, 2), ':', (e.second, 2), ',PT', (n, 2), UNITS + ')']
+    assert digits.same(digits.decode(r.timex), want), ('TIMEX endpoints differ from the resolved start / end', r.timex)
+
+
+def t_relative_duration(o: int, hh: int, mi: int, ss: int, n: int):
+    assert 711858 <= o <= 763363 and 0 <= hh <= 23 and 0 <= mi <= 59 and 0 <= ss <= 59 and 1 <= n <= 2
+    digits.reset()
+    day = datetime.fromordinal(o)
+    ref = datetime(day.year, day.month, day.day, hh, mi, ss)
+    DTPP.config._duration_extractor = _Ext([(len(WORD) + 1, 3, 'DUR')], Constants.SYS_DATETIME_DURATION)
+    dp = _DurPar()
+    dp.secs, dp.tx = n * 3600, 'PT' + digits.ph(n, 2) + 'H'
+    DTPP.config._duration_parser = dp
+    DTPP.config._cardinal_extractor = _NoNumbers()
+    r = DTPP.parse_duration(WORD + ' DUR', ref)
+    assert r.success is not True
